@@ -54,6 +54,7 @@ class State(object):
         self.next_cell = 1
         self.cur_args = None
         self.cur_raw = None
+        self.anchors = []          # cells allocated by the harness (kept reachable after the root frame returns)
         self.decisions = []
         self.dec_pos = 0
         self.notes = []
@@ -111,6 +112,8 @@ def identical(a, b):
         return len(a) == len(b) and all(identical(x, y) for x, y in zip(a, b))
     if isinstance(a, HashMapV):
         return identical(a.keys, b.keys) and identical(a.vals, b.vals)
+    if isinstance(a, PyFn):
+        return a.tag == b.tag
     if isinstance(a, FnItem):
         return a.name == b.name
     if isinstance(a, Closure):
@@ -221,6 +224,10 @@ def merge_group(sts, base, drop_pc=False, dry=False):
             return x if all(v.t.eq(x.t) for v in xs) else DiscrV(ite_chain(guards, [v.t for v in xs]))
         if isinstance(x, FnItem):
             if any(v.name != x.name for v in xs):
+                raise NoMerge()
+            return x
+        if isinstance(x, PyFn):
+            if any(v.tag != x.tag for v in xs):
                 raise NoMerge()
             return x
         if isinstance(x, Closure):
